@@ -8,6 +8,7 @@ import nx as NX
 import sz as SZ
 import ms as MS
 import rw as RW
+import mg as MG
 
 CONTAINERS = "emap 0.0.13 / micromap 0.0.19 / microstack 0.0.7 as audited (DESIGN §3)"
 HAND = "hand argument DESIGN §5.0: rules ⇒ invariants I1–I3 ⇒ statement"
@@ -159,5 +160,23 @@ PROPS = {
         "explanation": "RW1 bind's insert, RW2 kid, RW3 kids, RW4 put, RW5 data's three arms, RW6 who-may-write, RW7 derived Label traits, GC7b blanking, GC8 frame.",
         "trusted": [RUSTC, CONTAINERS],
         "assumptions": ["capacity limits and documented preconditions"],
+    },
+    "C11": {
+        "claim": "Decides MG1–MG6: nothing is written through the right-graph parameter (h is unchanged); the call closure of merge changes the left graph only through add/bind/put/next_id, so the GC state after a merge is one those calls produce and C01–C03 carry over; every bind(left,_,a) is control-dependent on kid(left,a) being None (an existing edge is never redirected); a new vertex is created exactly on the path where neither kid(left,a) nor the map has a target, as next_id → add(id) → bind(left,id,a); put(left,d) is guarded by the right vertex having data and d is that vertex's data; the descent recurses on (matched, to) after marking right in the map. Does not decide that every labelled path of h exists afterwards with equal data nor injectivity of the mapping (graph-level value facts).",
+        "note": "Trusted: rustc front end + engine; std HashMap. merge() on non-tree input is outside the property (scoped exemption for the repair helper).",
+        "technique": "MIR purity (read-only parameter) + who-may-call + guard/provenance rules on the descent",
+        "rules": [("MG1", MG.mg1), ("MG2", MG.mg2), ("MG3-6", MG.mg3456)],
+        "explanation": "MG1 read-only right graph, MG2 additive through the API only, MG3 bind guard, MG4 creation shape, MG5 data copy, MG6 descent/marking.",
+        "trusted": [RUSTC, CONTAINERS],
+        "assumptions": ["both graphs are trees of present vertices"],
+    },
+    "C12": {
+        "claim": "Decides MG7–MG8, the whole statement: every Ok(()) returned by merge() is control-dependent on the success of the descent and on equality between the size of the map the descent filled and the number of present vertices of the right graph; on the other edge an Err is returned whose text derives from the set difference keys(right) − mapped keys, sorted. Since the map gains one entry per visited right vertex (MG6), equality of the counts is completeness.",
+        "note": "Trusted: rustc front end + engine; std HashMap/HashSet; MG6 (one map entry per visited right vertex) is checked under C11 and re-run here.",
+        "technique": "MIR guard rule on the success return + provenance of the error text",
+        "rules": [("MG7/MG8", MG.mg78), ("MG6", MG.mg3456)],
+        "explanation": "MG7 Ok guarded by ?-success ∧ |mapped| == |right|, MG8 Err names the difference, sorted.",
+        "trusted": [RUSTC],
+        "assumptions": [],
     },
 }
